@@ -3,7 +3,7 @@
 # property against that copy (VERIF_REPO / VERIF_OUT: /repo and /verif/evidence are not touched), record which obligations fail -> seeded/MATRIX.json
 cd /verif
 work=$(mktemp -d /tmp/seedmatrix.XXXXXX)
-names=("$@"); if [ ${#names[@]} -eq 0 ]; then names=($(ls seeded | grep -v MATRIX)); fi
+names=("$@"); if [ ${#names[@]} -eq 0 ]; then names=($(ls seeded | grep -v MATRIX)); fi   # seeds marked "canary": false are included: their exit code is recorded as it is
 for n in "${names[@]}"; do
   d=seeded/$n; prop=${n%%-*}
   rm -rf $work/repo $work/out; mkdir -p $work/out; cp -r /repo $work/repo; rm -rf $work/repo/.git
